@@ -517,7 +517,7 @@ def rand_valid(d: T.Dict[str, T.Any], rnd: random.Random, text_only: bool = Fals
         return R('inttxt', n) if text_only or rnd.random() < 0.6 else R('int', n)
     if k in ('combo', 'feature'):
         ch = d['choices'] if k == 'combo' else ['enabled', 'disabled', 'auto']
-        return R('str', 0, [rnd.choice(ch)])
+        return R('str', 0, [rnd.choice([c for c in ch if c != 'custom'])])     # buildtype "custom" is not generated
     if k == 'array':
         ws = [c for c in d['choices'] if rnd.random() < 0.5]
         rnd.shuffle(ws)
@@ -641,7 +641,9 @@ def api_trace(j: int, seed: int) -> T.Dict[str, T.Any]:
     use_bt = rnd.random() < 0.5
     lv: T.List[T.List[T.Dict[str, T.Any]]] = [[] for _ in range(8)]
     for level in range(1, 9):
-        cand = [x for x in assignable(level) if (x[0] == 'buildtype') == use_bt or x[0] not in BT_DECLS]
+        # (a per-subproject buildtype equal to the inherited one: docs deduce again, code does nothing - not generated)
+        cand = [x for x in assignable(level) if x[0] not in BT_DECLS or
+                ((x[0] == 'buildtype') == use_bt and (x[0] != 'buildtype' or level in (1, 3, 4)))]
         for n, d in rnd.sample(cand, rnd.randint(0, min(3, len(cand)))):
             r = rand_valid(d, rnd, text_only=level in (4, 8))
             lv[level - 1].append({'name': n, 'm': 'h', 'r': r})
@@ -702,8 +704,10 @@ def api_trace(j: int, seed: int) -> T.Dict[str, T.Any]:
                 event('set_option', lambda: store.set_option(okey(n, s), py_raw(r)), k=K(n, s), r=r)
             elif what < 0.75:
                 picked = rnd.sample(keys, rnd.randint(1, min(3, len(keys))))
-                if any(n == 'buildtype' for n, _ in picked):
-                    picked = [p for p in picked if p[0] not in ('debug', 'optimization') or rnd.random() < 0.7]
+                # buildtype next to an explicit debug/optimization of the same scope in one command: only the
+                # unqualified form is exercised here (the per-subproject form belongs to the "bt" family of A)
+                bts = {s for n, s in picked if n == 'buildtype' and s != '~'}
+                picked = [p for p in picked if not (p[0] in ('debug', 'optimization') and p[1] in bts)]
                 invalid_one = rnd.random() < 0.2
                 D = []
                 if invalid_one:
